@@ -5,6 +5,8 @@
      missing  a real grader call with the feature on and no attempt                               -> JudgeMissing
      formula  the values of a built-in schedule in 1e-4 units against the documented formula       (drift monitor:
               the adapter reports a rejection of this kind as DRIFT, never as a violation)
+     steplog  the "Attempt number" / "Maximum credit" lines of the grader's debug log against the step model
+              AttemptCreditSteps (drift monitor as well)
    A record is accepted iff its clause is "ok"; otherwise the first broken clause is printed. *)
 EXTENDS AttemptCredit, Json, IOUtils
 Trace == ndJsonDeserialize(IOEnv.TRACE_FILE)
@@ -14,6 +16,7 @@ Clause(r) == CASE r.ev = "credit" -> ScheduleVerdict(r.vals8, r.lo8, Unit2, r.fi
                [] r.ev = "missing" -> JudgeMissing(r.raised)
                [] r.ev = "formula" -> LET b == FirstOffFormula(r.s, r.vals) IN
                                       IF b = 0 THEN "ok" ELSE "formula_at_attempt_" \o ToString(b)
+               [] r.ev = "steplog" -> IF r.log = ExpectedLog(r.c, r.n) THEN "ok" ELSE "steplog"
                [] OTHER -> "unknown_event"
 Verdict(i) == LET r == Trace[i]
                   v == Clause(r)
